@@ -6,7 +6,8 @@
 (* machine  cd sandbox -> launcher env -> pre_launch[..] -> launch ->      *)
 (* post_launch[..] -> exit RP_RET;  the launcher starts one instance of    *)
 (* the exec script per rank, each a sequential machine                     *)
-(*   SetRpEnv -> RankId -> NamedEnv -> TaskEnv -> PreExec[..] -> (sync) -> Exec ->     *)
+(*   SetRpEnv -> RankId -> Startup -> NamedEnv -> TaskEnv -> PreExec[..]   *)
+(*   -> GpuExport -> (sync) -> Exec ->                                     *)
 (*   PostExec[..] -> Exit(RP_RET)                                          *)
 (* Ranks interleave freely (they are separate processes).  The outcome of  *)
 (* every command (ok | fail) and the exit code of the executable are       *)
@@ -28,15 +29,17 @@ CONSTANTS Cfgs,              \* bounded input domain: set of task shapes
           DevIgnorePreFail,  \* a failing pre_exec does not end the script
           DevRetAfterPost,   \* RP_RET is overwritten by the post_exec commands
           DevNamedEnvLast,   \* the named environment is activated after the described exports
+          DevStartupAbortsOthers,  \* the rank-0-only startup report ends the script on ranks > 0
+          DevGpuWholeOnly,   \* the GPU variable is exported only for whole GPUs
           DevErrDirFromOut   \* whether stderr goes into the sandbox is decided by the stdout name
 
 VARIABLES cfg, F, xrc,
           lpc, lidx, lran, lret, lcode, cwd, outto, errto,
-          pc, idx, ran, execd, ret, code, envs, envval, arrived,
+          pc, idx, ran, execd, ret, code, envs, envval, arrived, reported, gpuenv,
           printed
 
 vars == <<cfg, F, xrc, lpc, lidx, lran, lret, lcode, cwd, outto, errto,
-          pc, idx, ran, execd, ret, code, envs, envval, arrived, printed>>
+          pc, idx, ran, execd, ret, code, envs, envval, arrived, reported, gpuenv, printed>>
 
 Rk == Ranks(cfg)
 
@@ -53,11 +56,13 @@ Init ==
   /\ code = [r \in Ranks(cfg) |-> -1]
   /\ envs = [r \in Ranks(cfg) |-> {}]
   /\ envval = [r \in Ranks(cfg) |-> EnvBefore(cfg)]
-  /\ arrived = {}
+  /\ arrived = {} /\ reported = {}
+  /\ gpuenv = [r \in Ranks(cfg) |-> [set |-> FALSE, ids |-> <<>>]]
   /\ printed = FALSE
 
 LVars == <<lpc, lidx, lran, lret, lcode, cwd, outto, errto>>
-RVars == <<pc, idx, ran, execd, ret, code, envs, envval, arrived>>
+RVars == <<pc, idx, ran, execd, ret, code, envs, envval, arrived, reported, gpuenv>>
+GVars == <<reported, gpuenv>>
 
 (* ------------------------------------------------------------------------ *)
 (* launch script                                                            *)
@@ -109,7 +114,7 @@ Launch ==                                 \* the launcher starts every rank
           /\ pc' = [r \in Rk |-> "env"]
           /\ UNCHANGED <<lret, lidx>>
   /\ UNCHANGED <<cfg, F, xrc, lran, lcode, cwd, printed,
-                 idx, ran, execd, ret, code, envs, envval, arrived>>
+                 idx, ran, execd, ret, code, envs, envval, arrived, reported, gpuenv>>
 
 Collect ==                                \* RP_RET=$? of the launcher
   /\ lpc = "wait" /\ \A r \in Rk : pc[r] = "done"
@@ -129,10 +134,23 @@ RStep(r, here, next, grp) ==
   /\ pc[r] = here
   /\ pc' = [pc EXCEPT ![r] = next]
   /\ envs' = [envs EXCEPT ![r] = @ \cup grp]
-  /\ UNCHANGED <<cfg, F, xrc, idx, ran, execd, ret, code, envval, arrived, printed>> /\ UNCHANGED LVars
+  /\ UNCHANGED <<cfg, F, xrc, idx, ran, execd, ret, code, envval, arrived, printed>> /\ UNCHANGED GVars /\ UNCHANGED LVars
 
 SetRpEnv(r) == RStep(r, "env", "rankid", {"rp"})
-RankId(r)   == RStep(r, "rankid", "nenv", {"rank"})
+RankId(r)   == RStep(r, "rankid", "startup", {"rank"})
+
+\* td.startup_timeout: test "$RP_RANK" == "0" && $RP_CTRL ... task_startup_done
+\* rank 0 reports, the line is a no-op on every other rank
+Startup(r) ==
+  /\ pc[r] = "startup"
+  /\ IF cfg.sto /\ r # 0 /\ DevStartupAbortsOthers
+     THEN /\ pc' = [pc EXCEPT ![r] = "done"] /\ code' = [code EXCEPT ![r] = FailCode]
+          /\ UNCHANGED reported
+     ELSE /\ pc' = [pc EXCEPT ![r] = "nenv"]
+          /\ reported' = IF cfg.sto /\ r = 0 THEN reported \cup {r} ELSE reported
+          /\ UNCHANGED code
+  /\ UNCHANGED <<cfg, F, xrc, idx, ran, execd, ret, envs, envval, arrived, gpuenv, printed>>
+  /\ UNCHANGED LVars
 
 \* _get_task_env, first block: ". <activation script of the named environment>"
 \* (defines what the environment captured, unsets what the agent had beyond it)
@@ -142,7 +160,7 @@ EnvStep(r, here, next, grp, val) ==
   /\ pc' = [pc EXCEPT ![r] = next]
   /\ envs' = [envs EXCEPT ![r] = @ \cup grp]
   /\ envval' = [envval EXCEPT ![r] = val]
-  /\ UNCHANGED <<cfg, F, xrc, idx, ran, execd, ret, code, arrived, printed>> /\ UNCHANGED LVars
+  /\ UNCHANGED <<cfg, F, xrc, idx, ran, execd, ret, code, arrived, printed>> /\ UNCHANGED GVars /\ UNCHANGED LVars
 
 NamedEnv(r) ==
   EnvStep(r, "nenv", "taskenv", IF cfg.nenv THEN {"named"} ELSE {},
@@ -153,7 +171,7 @@ TaskEnv(r) ==
   THEN \* bash cannot parse the export line: nothing after it runs
        /\ pc[r] = "taskenv"
        /\ pc' = [pc EXCEPT ![r] = "done"] /\ code' = [code EXCEPT ![r] = 2]
-       /\ UNCHANGED <<cfg, F, xrc, idx, ran, execd, ret, envs, envval, arrived, printed>> /\ UNCHANGED LVars
+       /\ UNCHANGED <<cfg, F, xrc, idx, ran, execd, ret, envs, envval, arrived, printed>> /\ UNCHANGED GVars /\ UNCHANGED LVars
   ELSE EnvStep(r, "taskenv", "pre", {"task"},
                IF DevNamedEnvLast THEN Activate(cfg, envval[r]) ELSE Export(envval[r]))
 
@@ -180,20 +198,29 @@ RCmd(r, sig, es, here, next) ==
                        ELSE /\ code' = [code EXCEPT ![r] = FailCode]
                             /\ pc' = [pc EXCEPT ![r] = "done"]
                             /\ UNCHANGED <<idx, ret>>
-  /\ UNCHANGED <<cfg, xrc, execd, envs, envval, arrived, printed>> /\ UNCHANGED LVars
+  /\ UNCHANGED <<cfg, xrc, execd, envs, envval, arrived, printed>> /\ UNCHANGED GVars /\ UNCHANGED LVars
 
-PreExec(r)  == RCmd(r, "pre_exec",  cfg.pre,  "pre",  IF cfg.sync THEN "sync" ELSE "exec")
+PreExec(r)  == RCmd(r, "pre_exec",  AllPre(cfg),  "pre",  "gpu")
+
+\* _extend_pre_exec: the per-rank "export CUDA_VISIBLE_DEVICES=<ids of the rank's slot>"
+GpuExport(r) ==
+  /\ pc[r] = "gpu"
+  /\ pc' = [pc EXCEPT ![r] = IF cfg.sync THEN "sync" ELSE "exec"]
+  /\ gpuenv' = [gpuenv EXCEPT ![r] = IF DevGpuWholeOnly /\ cfg.gq < 4
+                                      THEN [set |-> FALSE, ids |-> <<>>] ELSE GpuEnv(cfg, r)]
+  /\ UNCHANGED <<cfg, F, xrc, idx, ran, execd, ret, code, envs, envval, arrived, reported, printed>>
+  /\ UNCHANGED LVars
 PostExec(r) == RCmd(r, "post_exec", cfg.post, "post", "exit")
 
 SyncArrive(r) ==                          \* echo $RP_RANK >> pre_exec.sig
   /\ pc[r] = "sync" /\ r \notin arrived
   /\ arrived' = arrived \cup {r}
-  /\ UNCHANGED <<cfg, F, xrc, pc, idx, ran, execd, ret, code, envs, envval, printed>> /\ UNCHANGED LVars
+  /\ UNCHANGED <<cfg, F, xrc, pc, idx, ran, execd, ret, code, envs, envval, printed>> /\ UNCHANGED GVars /\ UNCHANGED LVars
 
 SyncPass(r) ==                            \* wc -l >= $RP_RANKS
   /\ pc[r] = "sync" /\ arrived = Rk
   /\ pc' = [pc EXCEPT ![r] = "exec"]
-  /\ UNCHANGED <<cfg, F, xrc, idx, ran, execd, ret, code, envs, envval, arrived, printed>> /\ UNCHANGED LVars
+  /\ UNCHANGED <<cfg, F, xrc, idx, ran, execd, ret, code, envs, envval, arrived, printed>> /\ UNCHANGED GVars /\ UNCHANGED LVars
 
 Exec(r) ==                                \* executable & ; wait ; RP_RET=$?
   /\ pc[r] = "exec"
@@ -203,13 +230,13 @@ Exec(r) ==                                \* executable & ; wait ; RP_RET=$?
   /\ execd' = [execd EXCEPT ![r] = TRUE]
   /\ ran' = [ran EXCEPT ![r] = Append(@, ExecMark)]
   /\ pc' = [pc EXCEPT ![r] = "post"] /\ idx' = [idx EXCEPT ![r] = 1]
-  /\ UNCHANGED <<cfg, F, code, envs, envval, arrived, printed>> /\ UNCHANGED LVars
+  /\ UNCHANGED <<cfg, F, code, envs, envval, arrived, printed>> /\ UNCHANGED GVars /\ UNCHANGED LVars
 
 Exit(r) ==                                \* exit $RP_RET
   /\ pc[r] = "exit"
   /\ code' = [code EXCEPT ![r] = ret[r]]
   /\ pc' = [pc EXCEPT ![r] = "done"]
-  /\ UNCHANGED <<cfg, F, xrc, idx, ran, execd, ret, envs, envval, arrived, printed>> /\ UNCHANGED LVars
+  /\ UNCHANGED <<cfg, F, xrc, idx, ran, execd, ret, envs, envval, arrived, printed>> /\ UNCHANGED GVars /\ UNCHANGED LVars
 
 XrcSeq == [i \in 1 .. cfg.ranks |-> xrc[i - 1]]
 
@@ -221,7 +248,8 @@ Finish ==                                 \* one line per terminal state for the
 
 Step ==
   \/ Cd \/ LEnv \/ PreLaunch \/ Launch \/ Collect \/ PostLaunch \/ LExit
-  \/ \E r \in Rk : \/ SetRpEnv(r) \/ RankId(r) \/ NamedEnv(r) \/ TaskEnv(r) \/ PreExec(r)
+  \/ \E r \in Rk : \/ SetRpEnv(r) \/ RankId(r) \/ Startup(r) \/ NamedEnv(r) \/ TaskEnv(r)
+                   \/ PreExec(r) \/ GpuExport(r)
                    \/ SyncArrive(r) \/ SyncPass(r) \/ Exec(r) \/ PostExec(r) \/ Exit(r)
 
 Next == Step \/ Finish
@@ -239,7 +267,7 @@ TypeOK ==
   /\ \A i \in 1 .. Len(cfg.env) : cfg.env[i] \in Classes
   /\ Len(cfg.envk) = Len(cfg.env) /\ \A i \in 1 .. Len(cfg.envk) : cfg.envk[i] \in KeyKinds
   /\ lpc \in {"cd", "lenv", "prel", "launch", "wait", "postl", "exit", "done"}
-  /\ \A r \in Rk : pc[r] \in {"idle", "env", "rankid", "nenv", "taskenv", "pre", "sync", "exec",
+  /\ \A r \in Rk : pc[r] \in {"idle", "env", "rankid", "startup", "nenv", "taskenv", "gpu", "pre", "sync", "exec",
                               "post", "exit", "done"}
   /\ \A r \in Rk : \A j \in 1 .. Len(ran[r]) : ran[r][j].sig \in Sigs
   /\ \A f \in F : f.sig \in Sigs /\ f.r \in Rk \cup {L}
@@ -259,8 +287,8 @@ InvPerRank ==
 \* nothing described is skipped on a rank that got that far
 InvNoneSkipped ==
   \A r \in Rk : execd[r] =>
-    \A i \in 1 .. Len(cfg.pre) : Applies(cfg.pre[i], r) =>
-      \E j \in 1 .. Len(ran[r]) : ran[r][j] = Ran("pre_exec", i, cfg.pre[i], r)
+    \A i \in 1 .. Len(AllPre(cfg)) : Applies(AllPre(cfg)[i], r) =>
+      \E j \in 1 .. Len(ran[r]) : ran[r][j] = Ran("pre_exec", i, AllPre(cfg)[i], r)
 
 \* a failing pre_exec prevents the executable and is reported
 InvFailPre ==
@@ -282,7 +310,7 @@ InvPostNeedsExec ==
 \* pre_exec_sync: no executable starts before every rank finished its pre_exec
 InvBarrier ==
   cfg.sync => \A r \in Rk : execd[r] =>
-    \A q \in Rk : pc[q] \notin {"idle", "env", "rankid", "nenv", "taskenv", "pre"}
+    \A q \in Rk : pc[q] \notin {"idle", "env", "rankid", "startup", "nenv", "taskenv", "pre", "gpu"}
 
 \* the executable sees the RP_*, rank and task environment, in the task sandbox
 InvEnv ==
@@ -304,6 +332,14 @@ InvLaunch ==
     /\ (~FailedOn(F, "pre_launch", L) /\ ~FailedOn(F, "post_launch", L)) =>
           lcode = LauncherRet([i \in 1 .. cfg.ranks |-> code[i - 1]])
 
+\* startup is reported by rank 0 only, and whenever rank 0 gets to its executable
+InvStartup ==
+  /\ reported \subseteq (IF cfg.sto THEN {0} ELSE {})
+  /\ (cfg.sto /\ execd[0]) => 0 \in reported
+
+\* the executable sees exactly the GPUs of its rank's slot
+InvGpuEnv == \A r \in Rk : execd[r] => gpuenv[r] = GpuEnv(cfg, r)
+
 \* stdout / stderr of the executable go to the described files
 InvOutFiles ==
   (\E r \in Rk : pc[r] # "idle") =>
@@ -315,7 +351,7 @@ InvAgree ==
   lpc = "done" =>
     LET X == LaunchRun(cfg, F, XrcSeq) IN
     /\ X.ran = lran /\ X.code = lcode
-    /\ X.launched => (X.out = outto /\ X.err = errto)
+    /\ X.launched => (X.out = outto /\ X.err = errto /\ X.ctrl = reported)
     /\ X.launched = (\A r \in Rk : pc[r] = "done")
     /\ X.launched => \A r \in Rk :
          /\ X.ranks[r + 1].ran = ran[r]
